@@ -433,7 +433,9 @@ def _alerted_call_never_rejected_as_unparseable(frame):
 
 _REG2.fns['bridge_env.network_bridge.server.Server.bidding_phase'].variants = {
     'alerted-calls': dict(
-        props=['C19'],
+        # C19: the alerted call is understood; C10: what the other seats are told is the call and
+        # nothing else (the alert marker of a foreign client is not passed on)
+        props=['C19', 'C10'],
         exc_ensures=[('alerted_call_never_rejected_as_unparseable',
                       _alerted_call_never_rejected_as_unparseable)],
         params=dict(self=AlertScenarioServer),
